@@ -100,6 +100,7 @@ def direct(circuit1, circuit2):
                 control_match = (
                     op1.q_registers_type == op2.q_registers_type
                     and op1.q_registers == op2.q_registers
+                    and tuple(op1.params) == tuple(op2.params)
                 )
                 if type(op1) is type(op2) and control_match:
                     pass
@@ -160,6 +161,7 @@ def ged(circuit1, circuit2, full=True):
         reg_match = (
             n1["op"].q_registers_type == n2["op"].q_registers_type
             and n1["op"].q_registers == n2["op"].q_registers
+            and tuple(n1["op"].params) == tuple(n2["op"].params)
         )
         ops_match = type(n1["op"]) is type(n2["op"])
 
@@ -213,6 +215,9 @@ def circuit_is_isomorphic(circuit1, circuit2):
 
         # Compare the type of the 2 operations and the q_register_type tuple
         if type(op1) != type(op2) or op1.q_registers_type != op2.q_registers_type:
+            return False
+        # Parameterized gates are only the same gate if their parameters agree
+        if tuple(op1.params) != tuple(op2.params):
             return False
 
         # For ControlledPairOperationBase, compare the control_type and target_type
